@@ -48,7 +48,7 @@ def run():
              for h, op in OPS.items()]
     native_src = copy_repo("native-src")
     e1.run_harnesses(rep, "C20", src, specs, jobs=8, timeout=1500 if tier() == "quick" else 3600,
-                     replayer=replayer_for(native_src))
+                     replayer=e1.fs_replayer("lock", OPS))
     try:
         from obligations import C20_e2
         C20_e2.add(rep)
